@@ -77,7 +77,10 @@ def reduced_instances(typ: str, tier: str) -> Iterator[K.Instance]:
         for n in (2, 3):
             for m in (2, 3):
                 for lows in itertools.product((0, 1), repeat=m):
-                    for ups in itertools.product((0, 1, 2) if th else (1, 2), repeat=m):
+                    # upper capacities are positive: with a capacity 0 the propagator does not terminate (known finding
+                    # gcc:ucap0:*, reported at its root by C04 / C06 / C14); whole-solver runs on such problems would only
+                    # re-report it in other guises and exhaust the step budgets
+                    for ups in itertools.product((1, 2, 3) if th else (1, 2), repeat=m):
                         if all(a <= b for a, b in zip(lows, ups)):
                             yield n, (0,) + tuple(lows) + tuple(ups), ((0, m - 1),) * n
     elif typ == "relation":
@@ -175,7 +178,7 @@ def f1(tier: str, types=None) -> Iterator[Dict]:
     for typ in types or K.TYPES:
         for n, params, axes in reduced_instances(typ, tier):
             nb = K.n_boxes(axes)
-            for box in _sub_boxes(axes, tier if nb <= 220 else "quick"):
+            for box in _sub_boxes(axes, tier if nb <= 40 else "quick"):
                 if box == tuple(axes):
                     yield from _layouts(typ, n, params, box, tier)
                 else:
